@@ -18,6 +18,8 @@ enum Family {
     GoalSealed,
     GoalInvalid,
     StartSealed,
+    /// feasible first query, then setup() again with a checker whose world seals the goal
+    ReSetupSealed,
 }
 
 fn gen_case(ch: &mut Ch, degenerate: bool) -> PlanCase {
@@ -29,11 +31,12 @@ fn gen_case(ch: &mut Ch, degenerate: bool) -> PlanCase {
     let mut c = gen_plan_case(ch, &prof);
     let cfg = c.space.clone();
     let lvs = lvs_of(&cfg).unwrap_or(0.05);
-    let fam = match ch.weighted(&[3.0, 3.0, 2.0, 2.0]) {
+    let fam = match ch.weighted(&[3.0, 3.0, 2.0, 2.0, 2.0]) {
         0 => Family::Feasible,
         1 => Family::GoalSealed,
         2 => Family::GoalInvalid,
-        _ => Family::StartSealed,
+        3 => Family::StartSealed,
+        _ => Family::ReSetupSealed,
     };
     let start = c.problems[0].start.clone();
     // single target for the infeasible families
@@ -44,7 +47,7 @@ fn gen_case(ch: &mut Ch, degenerate: bool) -> PlanCase {
     let gr = c.problems[0].goal.radius;
     let d = ref_distance(&cfg, &start, &target);
     match fam {
-        Family::Feasible => {}
+        Family::Feasible | Family::ReSetupSealed => {}
         Family::GoalSealed => {
             let thick = lvs * ch.range(1.1, 3.0);
             let r_in = gr * 1.2 + 1e-6;
@@ -100,6 +103,42 @@ fn gen_case(ch: &mut Ch, degenerate: bool) -> PlanCase {
         vec![Op::Setup(0), Op::SolveTimed { us: t_us }]
     };
     c.query_cap = usize::MAX;
+    if fam == Family::ReSetupSealed && c.problems[0].goal.targets.len() == 1 {
+        // same start and goal again, but the second setup's checker sees a world in which the
+        // goal is sealed off (or, if there is no room for a shell, entirely invalid)
+        let mut w2 = c.world.clone();
+        let thick = lvs * ch.range(1.1, 3.0);
+        let r_in = gr * 1.2 + 1e-6;
+        if d > r_in + thick + 1e-6 {
+            w2.obst.push(Obst::Shell {
+                c: target.clone(),
+                r_in,
+                r_out: r_in + thick,
+            });
+        } else {
+            w2.obst.push(Obst::Ball {
+                c: target.clone(),
+                r: gr * 1.5 + 1e-6,
+            });
+        }
+        let p0 = c.problems[0].clone();
+        c.problems.truncate(1);
+        c.problems.push(p0);
+        c.world2 = Some(w2);
+        let t2 = ch.pick(&[5_000u64, 20_000, 50_000]);
+        c.ops = if c.planner == PlannerTag::PRM {
+            vec![
+                Op::Setup(0),
+                Op::ConstructTimed { us: 5_000 },
+                Op::SolveTimed { us: t_us },
+                Op::Setup(1),
+                Op::ConstructTimed { us: 5_000 },
+                Op::SolveTimed { us: t2 },
+            ]
+        } else {
+            vec![Op::Setup(0), Op::SolveTimed { us: t_us.max(5_000) }, Op::Setup(1), Op::SolveTimed { us: t2 }]
+        };
+    }
     if degenerate {
         // degenerate resolution: fraction 0 / negative / -0.0 on every component
         let f = ch.pick(&[0.0, -1.0, -0.0, -1e-300]);
@@ -118,9 +157,9 @@ fn gen_case(ch: &mut Ch, degenerate: bool) -> PlanCase {
 
 /// Is the first problem infeasible by construction? (reference: the goal region is entirely
 /// invalid, or a closed shell of thickness >= L separates start and goal)
-fn infeasible<K: Kind>(case: &PlanCase, lvs: f64) -> Option<&'static str> {
+fn infeasible<K: Kind>(case: &PlanCase, pi: usize, wi: usize, lvs: f64) -> Option<&'static str> {
     let cfg = &case.space;
-    let p = &case.problems[0];
+    let p = &case.problems[pi];
     if p.goal.targets.len() != 1 {
         return None;
     }
@@ -128,7 +167,7 @@ fn infeasible<K: Kind>(case: &PlanCase, lvs: f64) -> Option<&'static str> {
     let gr = p.goal.radius;
     let d_st = ref_distance(cfg, &p.start, t);
     let slack = 1e-6;
-    for o in &case.world.obst {
+    for o in &case.world_by_index(wi).obst {
         match o {
             Obst::Ball { c, r } if bits_eq(c, t) && *r >= gr + slack => return Some("goal-region-invalid"),
             Obst::Shell { c, r_in, r_out } if *r_out - *r_in >= lvs * 1.05 => {
@@ -162,12 +201,19 @@ fn c06_k<K: Kind>(case: &PlanCase, ctx: &mut Ctx) {
         ctx.nontrivial = true;
     }
     let lvs = trace.lvs;
-    let inf = if degenerate { None } else { infeasible::<K>(case, lvs) };
-    if let Some(w) = inf {
-        ctx.label(format!("infeasible:{w}"));
-        ctx.nontrivial = true;
-    }
+    let worlds = step_worlds(case, &trace);
+    let mut cur_problem = 0usize;
     for (i, st) in trace.steps.iter().enumerate() {
+        if let Op::Setup(p) = st.op {
+            cur_problem = p % case.problems.len();
+        }
+        let inf = if degenerate { None } else { infeasible::<K>(case, cur_problem, worlds[i], lvs) };
+        if matches!(st.op, Op::SolveTimed { .. }) {
+            if let Some(w) = inf {
+                ctx.label(format!("infeasible:{w}{}", if worlds[i] == 1 { "(after re-setup)" } else { "" }));
+                ctx.nontrivial = true;
+            }
+        }
         if matches!(st.res, Res::Panic { .. }) {
             ctx.panicked = true;
             return;
@@ -204,7 +250,7 @@ fn c06_k<K: Kind>(case: &PlanCase, ctx: &mut Ctx) {
                 let mut where_ = String::new();
                 if let Some(ks) = KSpace::<K>::new(&case.space) {
                     for k in 0..p.len().saturating_sub(1) {
-                        let r = oracle_b(&ks, &case.world, &p[k], &p[k + 1], lvs);
+                        let r = oracle_b(&ks, case.world_by_index(worlds[i]), &p[k], &p[k + 1], lvs);
                         if r > 0.0 {
                             where_ = format!("; segment {k} crosses an invalid stretch of length >= {r:e}");
                             break;
@@ -231,7 +277,7 @@ impl Prop for C06 {
     type Case = PlanCase;
     const ID: &'static str = "C06";
     const PART: &'static str = "timed-runs";
-    const RULE: &'static str = "proptest-generated planner cases run under real wall-clock limits T in {0, 1, 5, 20, 50} ms (PRM build time in {0, 1, 5, 20} ms), no iteration budget: feasible worlds and three infeasible families (goal sealed by a closed shell of thickness >= 1.1 L, goal region entirely invalid, start sealed in) x 4 planners x 6 kinds x parameters x seeds; 10% degenerate resolutions (longest-valid-segment fraction 0 / negative / -0.0, then solve(100 ms)). Oracle: elapsed <= T + 1 s for solve and construct_roadmap (an overshoot must repeat in 3 more runs of the same case to count), Ok(path) on an infeasible world is a violation, and a call that does not return within the 20 s watchdog is a violation ('blocks indefinitely'). Non-trivial = infeasible world, a deadline that actually fired (Err(Timeout)), or a degenerate resolution.";
+    const RULE: &'static str = "proptest-generated planner cases run under real wall-clock limits T in {0, 1, 5, 20, 50} ms (PRM build time in {0, 1, 5, 20} ms), no iteration budget: feasible worlds and four infeasible families (goal sealed by a closed shell of thickness >= 1.1 L, goal region entirely invalid, start sealed in, and a feasible query followed by setup() with a checker whose world seals the goal) x 4 planners x 6 kinds x parameters x seeds; 10% degenerate resolutions (longest-valid-segment fraction 0 / negative / -0.0, then solve(100 ms)). Oracle: elapsed <= T + 1 s for solve and construct_roadmap (an overshoot must repeat in 3 more runs of the same case to count), Ok(path) on an infeasible world is a violation, and a call that does not return within the 20 s watchdog is a violation ('blocks indefinitely'). Non-trivial = infeasible world, a deadline that actually fired (Err(Timeout)), or a degenerate resolution.";
     const HANG_IS_VIOLATION: bool = true;
     const WATCHDOG_S: u64 = 20;
     fn random_cases(tier: Tier) -> usize {
